@@ -48,7 +48,7 @@ import (
 )
 
 func init() {
-	evid.Register(&evid.Check{ID: "C02", Level: "exploration", Run: run, QuickBudget: 150 * time.Second, ThoroughBudget: 20 * time.Minute})
+	evid.Register(&evid.Check{ID: "C02", Level: "exploration", Run: run, QuickBudget: 300 * time.Second, ThoroughBudget: 20 * time.Minute})
 	evid.RegisterWorker("c02", worker)
 }
 
@@ -988,7 +988,7 @@ func run(r *evid.Run) {
 	r.Assume("map-seed sweep rotates all maps alike (one seed per execution)")
 	self, _ := os.Executable()
 	scs := scenarios()
-	deadline := time.Now().Add(100 * time.Second)
+	deadline := time.Now().Add(250 * time.Second)
 	if !r.Quick() {
 		deadline = time.Now().Add(15 * time.Minute)
 	}
